@@ -62,7 +62,7 @@ def sweep_inputs(tier):
                 yield pre + trig + bytes([b]) + suf, "sweep:%s" % name
             if tier == "thorough":
                 for b1 in INTERESTING:
-                    for b2 in INTERESTING:
+                    for b2 in INTERESTING[::3]:          # (all 34 x 34 pairs made the orchestrator need more than 30 GB)
                         yield pre + trig + bytes([b1, b2]) + suf, "sweep2:%s" % name
 
 
